@@ -24,6 +24,8 @@ type icept struct {
 	ID      channel.ID
 	Bals    channel.Balances
 	Awaited bool
+	Pre     bool // registered by an earlier step of the same history: not registered again
+	Keep    bool // stays registered after this message (unless it was awaited and thereby released)
 }
 
 // source is channel data handed to the client's restore path.
